@@ -78,7 +78,14 @@ def run_C03(tier, seed):
     b = stages.api_stage("C03", "batch", tier, seed, groups=("rist",), scale="2:256", scale_min=0,
                          limit=400 if Q(tier) else None, must_fn=lambda s: s["sc"]["skew"] != [0, 0, 0])
     b.name = "api:batch@256"
-    return [a, b]
+    # the orchestration with batch size, CHUNK SIZE, input lengths, validity and class of every member symbolic
+    # the batch equation is a proper random combination: non-zero, pairwise distinct, response-bound weights on every member
+    tb, _ = stages.pick_scenarios("batch", tier, seed, lambda s: verifies(s) and len(s["sc"]["members"]) >= 2 and nm_of(s) <= 16 and s["sc"]["skew"] == [0, 0, 0]
+                                  and s["sc"]["mode"] != "RecoverOnly", 8 if Q(tier) else 80, prop="C03")
+    d = stages.trace_stage("C03", "combination", tb, seed, module="TraceVerify", calls="verify")
+    c = stages.apalache_stage("C03", "BatchUnbounded", "C03", 12, cinit="CInit", negative_cinits=("CInitLoopOnly", "CInitFirstChunk"),
+                              note="K in 0..10, chunk size in 1..10, the three input lengths, validity and bit-length class of every member are symbolic")
+    return [a, b, d, c]
 
 
 def run_C05(tier, seed):
@@ -90,7 +97,15 @@ def run_C05(tier, seed):
 
 
 def run_C06(tier, seed):
-    return [stages.api_stage("C06", "witness", tier, seed)]
+    res = [stages.api_stage("C06", "witness", tier, seed)]
+    # the guard sequence against the witness relation with every value and promise an arbitrary 64-bit number
+    res.append(stages.apalache_stage("C06", "GuardsUnbounded", "Both", 2, negative_inv="C06Wrong",
+                                     note="values and promises are symbolic integers in 0..2^64-1 (promise -1 = absent), bit lengths 1..64, up to 4 commitments, every witness deviation"))
+    # the prover's own computation on accepted witnesses: static scalars are the bits of value - promise
+    q = Q(tier)
+    sc, _ = stages.pick_scenarios("witness", tier, seed, lambda s: s["expect"]["prove"] == "ok" and nm_of(s) <= 16, 10 if q else 100, prop="C06")
+    res.append(stages.trace_stage("C06", "bits", sc, seed, module="TraceProve", consts=TP_CONSTS, calls="prove"))
+    return res
 
 
 def run_C07(tier, seed):
@@ -198,6 +213,9 @@ def run_C11(tier, seed):
 def run_C15(tier, seed):
     q = Q(tier)
     res = [stages.cases_stage("C15", "MC_Codec", tier, seed, invariants="C15 Total")]
+    # the same decoder machine with the length symbolic: acceptance <=> closed form for byte strings of EVERY length
+    res.append(stages.apalache_stage("C15", "CodecUnbounded", "Both", 16, negative_inv="C15Wrong",
+                                     note="total length, first byte and non-canonical chunk index are symbolic naturals"))
     # every proof the prover can output: length formula, decode(encode(p)) == p, encode(decode(b)) == b
     res.append(stages.api_stage("C15", "roundtrip", tier, seed))
     return res
@@ -206,6 +224,7 @@ def run_C15(tier, seed):
 def run_C16(tier, seed):
     q = Q(tier)
     res = [stages.cases_stage("C16", "MC_Codec", tier, seed, invariants="C15 Total")]
+    res.append(stages.apalache_stage("C16", "CodecUnbounded", "Terminated", 16))      # decoding ends within 14 steps whatever the length
     # uniformly random strings of every length, with a random and with a plausible first byte
     raw = [{"op": "decode_raw", "len": ln, "fbmode": fm, "expect": "nopanic"} for ln in range(0, 1201 if not q else 700) for fm in (0, 1)]
     res.append(stages.raw_cases_stage("C16", "random-strings", raw, seed))
@@ -215,6 +234,7 @@ def run_C16(tier, seed):
     d.name += "@dev"
     res.append(d)
     res.append(stages.api_stage("C16", "alter", tier, seed, groups=("rist",)))
+    res.append(stages.api_stage("C16", "capacity", tier, seed, groups=("fm",), profile="dev", limit=200 if q else None))
     res.append(stages.api_stage("C16", "batch", tier, seed, groups=("fm",), profile="dev", limit=250 if q else None))
     big = stages.api_stage("C16", "batch", tier, seed, groups=("rist",), scale="2:256", scale_min=0, limit=60 if q else 600)
     big.name = "api:batch@256"
